@@ -32,9 +32,26 @@ type ServiceSum struct {
 	Methods []MethodSum
 }
 
+// EntitySum: a state entity of the client API: name, primary keys, the generated query service,
+// the command services and the event names.
+type EntitySum struct {
+	Name     string
+	PK       []string
+	Query    ServiceSum
+	Commands []ServiceSum
+	Events   []string
+}
+
 type Summary struct {
 	Services []ServiceSum
+	Entities []EntitySum
 	Keys     []string
+	// AnyColl: the package declares an array or map of `any` somewhere: the schema reader refuses the
+	// image since a9e5f7d, the compiler accepts it (open finding api:err:collection-of-any)
+	AnyColl string
+	// BadList: a method whose request has a j5.list.v1.QueryRequest property and whose response is not
+	// list shaped (exactly one array, of objects): buildListRequest refuses the whole API
+	BadList string
 	// BadDefault: a list method's walk reaches an enum property whose default filter names no
 	// option; buildListRequest refuses the whole API ("unknown enum value")
 	BadDefault string
@@ -63,16 +80,32 @@ func (m MethodSum) String() string {
 	return m.Name + " " + m.Verb + " " + vh.Hex([]byte(m.Path)) + " P:" + csv(m.P, "-") + " Q:" + csv(m.Q, "-") + " B:" + b + " R:" + r + " L:" + l
 }
 
+func (sv ServiceSum) String() string {
+	var b strings.Builder
+	b.WriteString("[" + sv.Name + " " + itoa(len(sv.Methods)))
+	for _, m := range sv.Methods {
+		b.WriteString(" [" + m.String() + "]")
+	}
+	b.WriteString("]")
+	return b.String()
+}
+
 func (s Summary) String() string {
 	var b strings.Builder
 	b.WriteString("S")
 	b.WriteString(itoa(len(s.Services)))
 	for _, sv := range s.Services {
-		b.WriteString(" [" + sv.Name + " " + itoa(len(sv.Methods)))
-		for _, m := range sv.Methods {
-			b.WriteString(" [" + m.String() + "]")
+		b.WriteString(" " + sv.String())
+	}
+	if len(s.Entities) > 0 {
+		b.WriteString(" E" + itoa(len(s.Entities)))
+		for _, en := range s.Entities {
+			b.WriteString(" [" + en.Name + " PK:" + csv(en.PK, "-") + " " + en.Query.String() + " C" + itoa(len(en.Commands)))
+			for _, c := range en.Commands {
+				b.WriteString(" " + c.String())
+			}
+			b.WriteString(" EV:" + csv(en.Events, "-") + "]")
 		}
-		b.WriteString("]")
 	}
 	b.WriteString(" K:" + csv(s.Keys, "-"))
 	return b.String()
@@ -96,6 +129,7 @@ type expCtx struct {
 	spec       *Spec
 	keys       map[string]bool
 	badDefault string
+	badList    string
 }
 
 func (s *Spec) schema(name string) *Schema {
@@ -105,6 +139,33 @@ func (s *Spec) schema(name string) *Schema {
 		}
 	}
 	return nil
+}
+
+// isFlat: an object field marked `flatten` (flag F on a direct reference to a declared object)
+func isFlat(p *Prop) bool { return p.Has('F') && p.T.K == "R" && p.T.Sub == "o" }
+
+// clientProps mirrors ObjectSchema.clientProperties: a flattened object field is replaced by the
+// client properties of its object unless that object is already being flattened. An entry carries
+// the message name its inline children are hoisted under.
+type cprop struct {
+	p      *Prop
+	parent string
+	prefix string // "" (package schema) or "service." (request / response message and what is hoisted from it)
+}
+
+func (c *expCtx) clientProps(prefix, self string, props []*Prop, flattening []string) []cprop {
+	flattening = append(append([]string{}, flattening...), self)
+	var out []cprop
+	for _, p := range props {
+		if isFlat(p) && !contains(flattening, p.T.Name) {
+			if sc := c.spec.schema(p.T.Name); sc != nil && sc.Kind == "O" {
+				out = append(out, c.clientProps("", sc.Name, sc.Props, flattening)...)
+				continue
+			}
+		}
+		out = append(out, cprop{p, self, prefix})
+	}
+	return out
 }
 
 // reach marks every schema reachable from a property type; parent is the name of the message
@@ -121,8 +182,14 @@ func (c *expCtx) reach(t *Type, prefix, parent, field string) {
 			return
 		}
 		c.keys[prefix+name] = true
-		for _, p := range t.Props {
-			c.reach(p.T, prefix, name, p.Name)
+		if t.K == "IO" {
+			for _, cp := range c.clientProps(prefix, name, t.Props, nil) {
+				c.reach(cp.p.T, cp.prefix, cp.parent, cp.p.Name)
+			}
+		} else {
+			for _, p := range t.Props {
+				c.reach(p.T, prefix, name, p.Name)
+			}
 		}
 	case "IE":
 		c.keys[prefix+parent+"_"+strcase.ToCamel(field)] = true
@@ -138,6 +205,12 @@ func (c *expCtx) reachNamed(name string) {
 		return
 	}
 	c.keys[name] = true
+	if sc.Kind == "O" {
+		for _, cp := range c.clientProps("", name, sc.Props, nil) {
+			c.reach(cp.p.T, cp.prefix, cp.parent, cp.p.Name)
+		}
+		return
+	}
 	for _, p := range sc.Props {
 		c.reach(p.T, "", name, p.Name)
 	}
@@ -165,88 +238,218 @@ func contains(xs []string, x string) bool {
 	return false
 }
 
+// isQueryProp: what makes fillRequest build a list request
+func isQueryProp(p *Prop) bool {
+	return p.T.K == "X" && p.T.Pkg == "j5.list.v1" && p.T.Name == "QueryRequest"
+}
+
+// expectService: names, verb, resolved path, split, response and list fields of the methods of a
+// service with sub-package prefix "service." (declared services and entity command services)
+func (c *expCtx) expectService(name string, base *string, methods []*Method) ServiceSum {
+	s := c.spec
+	ss := ServiceSum{Name: name}
+	for _, m := range methods {
+		ms := MethodSum{Name: m.Name, Verb: m.Verb, Path: m.Path}
+		if base != nil {
+			ms.Path = path.Join(*base, m.Path)
+		}
+		params := pathParams(ms.Path)
+		ms.HasBody = m.Verb != "GET"
+		isQuery := false
+		for _, p := range m.Req {
+			isQuery = isQuery || isQueryProp(p)
+			switch {
+			case contains(params, p.Name):
+				ms.P = append(ms.P, p.Name)
+			case ms.HasBody:
+				// the body goes through ToJ5ClientObject: flattened object fields show their children
+				for _, cp := range c.clientProps("service.", m.Name+"Request", []*Prop{p}, nil) {
+					ms.B = append(ms.B, cp.p.Name)
+				}
+			default:
+				ms.Q = append(ms.Q, p.Name)
+			}
+			c.reach(p.T, "service.", m.Name+"Request", p.Name)
+		}
+		if m.HasResp {
+			ms.Resp = m.Name + "Response"
+			for _, p := range m.Resp {
+				c.reach(p.T, "service.", m.Name+"Response", p.Name)
+			}
+		}
+		if isQuery {
+			ms.List = true
+			item := listItem(s, m)
+			if item == nil {
+				if c.badList == "" {
+					c.badList = name + "." + m.Name
+				}
+			} else {
+				for _, cp := range c.clientProps("", item.Name, item.Props, nil) {
+					c.listWalk(&ms, cp, nil, []string{item.Name})
+				}
+			}
+		}
+		ss.Methods = append(ss.Methods, ms)
+	}
+	return ss
+}
+
+// listItem: the declared object the list request of a method is built from; nil when the response
+// is not list shaped (no response, not exactly one array, array of something else than objects)
+func listItem(s *Spec, m *Method) *Schema {
+	if !m.HasResp {
+		return nil
+	}
+	var arrays []*Type
+	for _, p := range m.Resp {
+		if p.T.K == "A" {
+			arrays = append(arrays, p.T)
+		}
+	}
+	if len(arrays) != 1 || arrays[0].Elem.K != "R" || arrays[0].Elem.Sub != "o" {
+		return nil
+	}
+	sc := s.schema(arrays[0].Elem.Name)
+	if sc == nil || sc.Kind != "O" {
+		return nil
+	}
+	return sc
+}
+
+func entityBase(s *Spec, en *Entity) string {
+	return "/" + strings.ReplaceAll(s.Pkg, ".", "/") + "/" + strcase.ToSnake(en.Name)
+}
+
 func Expect(s *Spec) Summary {
 	c := &expCtx{spec: s, keys: map[string]bool{}}
 	var out Summary
 	for _, sv := range s.Services {
-		ss := ServiceSum{Name: sv.Name + "Service"}
-		for _, m := range sv.Methods {
-			ms := MethodSum{Name: m.Name, Verb: m.Verb, Path: m.Path, List: m.List}
-			if sv.Base != nil {
-				ms.Path = path.Join(*sv.Base, m.Path)
+		out.Services = append(out.Services, c.expectService(sv.Name+"Service", sv.Base, sv.Methods))
+	}
+	for _, en := range s.Entities {
+		es := EntitySum{Name: strcase.ToSnake(en.Name)}
+		camel := strcase.ToCamel(en.Name)
+		var getKeys, listKeys []string
+		for _, k := range en.Keys {
+			if k.Has('p') {
+				es.PK = append(es.PK, k.Name)
 			}
-			params := pathParams(ms.Path)
-			ms.HasBody = m.Verb != "GET"
-			for _, p := range m.Req {
-				switch {
-				case contains(params, p.Name):
-					ms.P = append(ms.P, p.Name)
-				case ms.HasBody:
-					ms.B = append(ms.B, p.Name)
-				default:
-					ms.Q = append(ms.Q, p.Name)
-				}
-				c.reach(p.T, "service.", m.Name+"Request", p.Name)
+			if k.Has('p') || k.Has('h') {
+				getKeys = append(getKeys, k.Name)
 			}
-			if m.HasResp {
-				ms.Resp = m.Name + "Response"
-				for _, p := range m.Resp {
-					c.reach(p.T, "service.", m.Name+"Response", p.Name)
-				}
+			if k.Has('h') {
+				listKeys = append(listKeys, k.Name)
 			}
-			if m.List {
-				item := s.schema(leaf(m.Resp[0].T).Name)
-				c.listWalk(&ms, item.Props, nil, []string{item.Name}, item.Name)
-			}
-			ss.Methods = append(ss.Methods, ms)
 		}
-		out.Services = append(out.Services, ss)
+		colon := func(ks []string, tail ...string) string {
+			var segs []string
+			for _, k := range ks {
+				segs = append(segs, ":"+k)
+			}
+			return strings.Join(append(segs, tail...), "/")
+		}
+		qbase := entityBase(s, en) + "/q"
+		es.Query = ServiceSum{Name: camel + "QueryService", Methods: []MethodSum{
+			{Name: camel + "Get", Verb: "GET", Path: path.Join(qbase, colon(getKeys)), P: getKeys, Resp: camel + "GetResponse"},
+			{Name: camel + "List", Verb: "GET", Path: path.Join(qbase, colon(listKeys)), P: listKeys, Q: []string{"page", "query"}, Resp: camel + "ListResponse", List: true},
+			{Name: camel + "Events", Verb: "GET", Path: path.Join(qbase, colon(getKeys, "events")), P: getKeys, Q: []string{"page", "query"}, Resp: camel + "EventsResponse", List: true},
+		}}
+		for _, cs := range en.Commands {
+			name := cs.Name
+			if name == "" {
+				name = camel
+			}
+			if !strings.HasSuffix(name, "Command") {
+				name += "Command"
+			}
+			base := entityBase(s, en) + "/c"
+			if cs.Base != nil {
+				base = entityBase(s, en) + "/" + *cs.Base
+			}
+			es.Commands = append(es.Commands, c.expectService(name+"Service", &base, cs.Methods))
+		}
+		for _, ev := range en.Events {
+			es.Events = append(es.Events, strcase.ToLowerCamel(ev.Name))
+			c.keys[camel+"EventType_"+ev.Name] = true
+			for _, cp := range c.clientProps("", camel+"EventType_"+ev.Name, ev.Props, nil) {
+				c.reach(cp.p.T, cp.prefix, cp.parent, cp.p.Name)
+			}
+		}
+		for _, part := range []string{"Keys", "Data", "Status", "State", "EventType", "Event"} {
+			c.keys[camel+part] = true
+		}
+		for _, cp := range c.clientProps("", camel+"Data", en.Data, nil) {
+			c.reach(cp.p.T, cp.prefix, cp.parent, cp.p.Name)
+		}
+		out.Entities = append(out.Entities, es)
 	}
 	for k := range c.keys {
 		out.Keys = append(out.Keys, k)
 	}
 	sort.Strings(out.Keys)
 	out.BadDefault = c.badDefault
+	out.BadList = c.badList
+	out.AnyColl = s.anyCollection()
 	return out
 }
 
-// listWalk mirrors buildListRequest over WalkSchemaFields: visit every property, recurse into
-// object and oneof fields (named or inline), never into a schema that is already being walked.
-func (c *expCtx) listWalk(ms *MethodSum, props []*Prop, pth []string, stack []string, parent string) {
-	for _, p := range props {
-		pp := append(append([]string{}, pth...), p.Name)
-		name := strings.Join(pp, ".")
-		if (p.T.K == "R" && p.T.Sub == "e" || p.T.K == "IE") && p.Has('f') && c.spec.defaultFilter(p) == "BOGUS" && c.badDefault == "" {
-			c.badDefault = ms.Name + ":" + name
+// listWalk mirrors buildListRequest over WalkSchemaFields (asClient): visit the client property,
+// recurse into the client properties of object fields and the properties of oneof fields (named
+// or inline), never into a schema that is already being walked.
+func (c *expCtx) listWalk(ms *MethodSum, cp cprop, pth []string, stack []string) {
+	p := cp.p
+	pp := append(append([]string{}, pth...), p.Name)
+	name := strings.Join(pp, ".")
+	if (p.T.K == "R" && p.T.Sub == "e" || p.T.K == "IE") && c.spec.defaultFilter(p) == "BOGUS" && c.badDefault == "" {
+		c.badDefault = ms.Name + ":" + name
+	}
+	switch k := p.T.K; {
+	case k == "R" && p.T.Sub == "e", k == "IE", k == "bool", k == "id62", k == "uuid", k == "key":
+		if p.Has('f') {
+			ms.LF = append(ms.LF, name)
 		}
-		switch k := p.T.K; {
-		case k == "R" && p.T.Sub == "e", k == "IE", k == "bool", k == "id62", k == "uuid", k == "key", k == "R" && p.T.Sub == "u", k == "IU":
-			if p.Has('f') {
-				ms.LF = append(ms.LF, name)
-			}
-		case k == "i32", k == "i64", k == "u32", k == "u64", k == "f32", k == "f64", k == "ts":
-			if p.Has('f') {
-				ms.LF = append(ms.LF, name)
-			}
-			if p.Has('s') {
-				ms.LS = append(ms.LS, name)
-			}
-		case k == "str":
-			if p.Has('q') {
-				ms.LQ = append(ms.LQ, name)
+	case k == "i32", k == "i64", k == "u32", k == "u64", k == "f32", k == "f64", k == "ts":
+		if p.Has('f') {
+			ms.LF = append(ms.LF, name)
+		}
+		if p.Has('s') {
+			ms.LS = append(ms.LS, name)
+		}
+	case k == "str":
+		if p.Has('q') {
+			ms.LQ = append(ms.LQ, name)
+		}
+	}
+	// (list rules on a oneof field compile, and are not looked at by buildListRequest)
+	switch p.T.K {
+	case "R":
+		if p.T.Sub == "e" || contains(stack, p.T.Name) {
+			return
+		}
+		if sc := c.spec.schema(p.T.Name); sc != nil {
+			st := append(append([]string{}, stack...), sc.Name)
+			if sc.Kind == "O" {
+				for _, ch := range c.clientProps("", sc.Name, sc.Props, nil) {
+					c.listWalk(ms, ch, pp, st)
+				}
+			} else {
+				for _, ch := range sc.Props {
+					c.listWalk(ms, cprop{ch, sc.Name, ""}, pp, st)
+				}
 			}
 		}
-		switch p.T.K {
-		case "R":
-			if p.T.Sub == "e" || contains(stack, p.T.Name) {
-				continue
+	case "IO", "IU":
+		name := cp.parent + "_" + strcase.ToCamel(p.Name)
+		st := append(append([]string{}, stack...), name)
+		if p.T.K == "IO" {
+			for _, ch := range c.clientProps(cp.prefix, name, p.T.Props, nil) {
+				c.listWalk(ms, ch, pp, st)
 			}
-			if sc := c.spec.schema(p.T.Name); sc != nil {
-				c.listWalk(ms, sc.Props, pp, append(append([]string{}, stack...), sc.Name), sc.Name)
+		} else {
+			for _, ch := range p.T.Props {
+				c.listWalk(ms, cprop{ch, name, cp.prefix}, pp, st)
 			}
-		case "IO", "IU":
-			name := parent + "_" + strcase.ToCamel(p.Name)
-			c.listWalk(ms, p.T.Props, pp, append(append([]string{}, stack...), name), name)
 		}
 	}
 }
@@ -307,11 +510,20 @@ func Actual(pkgName string, api *client_j5pb.API) Summary {
 			continue
 		}
 		for _, sv := range pkg.Services {
-			ss := ServiceSum{Name: sv.Name}
-			for _, m := range sv.Methods {
-				ss.Methods = append(ss.Methods, methodSum(m))
+			out.Services = append(out.Services, serviceSum(sv))
+		}
+		for _, en := range pkg.StateEntities {
+			es := EntitySum{Name: en.Name, PK: en.PrimaryKey}
+			if en.QueryService != nil {
+				es.Query = serviceSum(en.QueryService)
 			}
-			out.Services = append(out.Services, ss)
+			for _, cs := range en.CommandServices {
+				es.Commands = append(es.Commands, serviceSum(cs))
+			}
+			for _, ev := range en.Events {
+				es.Events = append(es.Events, ev.Name)
+			}
+			out.Entities = append(out.Entities, es)
 		}
 		for k := range pkg.Schemas {
 			out.Keys = append(out.Keys, k)
@@ -319,4 +531,83 @@ func Actual(pkgName string, api *client_j5pb.API) Summary {
 	}
 	sort.Strings(out.Keys)
 	return out
+}
+
+func serviceSum(sv *client_j5pb.Service) ServiceSum {
+	ss := ServiceSum{Name: sv.Name}
+	for _, m := range sv.Methods {
+		ss.Methods = append(ss.Methods, methodSum(m))
+	}
+	return ss
+}
+
+// anyCollection: the first property (path) of the package whose type is an array or map of `any`
+func (s *Spec) anyCollection() string {
+	var find func(at string, ps []*Prop) string
+	var inType func(at string, t *Type) string
+	inType = func(at string, t *Type) string {
+		if (t.K == "A" || t.K == "M") && t.Elem != nil && t.Elem.K == "any" {
+			return at
+		}
+		if t.Elem != nil {
+			if r := inType(at, t.Elem); r != "" {
+				return r
+			}
+		}
+		return find(at, t.Props)
+	}
+	find = func(at string, ps []*Prop) string {
+		for _, p := range ps {
+			if r := inType(at+"."+p.Name, p.T); r != "" {
+				return r
+			}
+		}
+		return ""
+	}
+	for _, sc := range s.Schemas {
+		if r := find(sc.Name, sc.Props); r != "" {
+			return r
+		}
+	}
+	for _, sv := range s.Services {
+		for _, m := range sv.Methods {
+			if r := find(m.Name+"Request", m.Req); r != "" {
+				return r
+			}
+			if r := find(m.Name+"Response", m.Resp); r != "" {
+				return r
+			}
+		}
+	}
+	for _, t := range s.Topics {
+		for _, m := range t.Msgs {
+			if r := find(t.Name, m.Props); r != "" {
+				return r
+			}
+		}
+	}
+	for _, en := range s.Entities {
+		if r := find(en.Name, en.Keys); r != "" {
+			return r
+		}
+		if r := find(en.Name, en.Data); r != "" {
+			return r
+		}
+		for _, ev := range en.Events {
+			if r := find(en.Name+"."+ev.Name, ev.Props); r != "" {
+				return r
+			}
+		}
+		for _, cs := range en.Commands {
+			for _, m := range cs.Methods {
+				if r := find(m.Name+"Request", m.Req); r != "" {
+					return r
+				}
+				if r := find(m.Name+"Response", m.Resp); r != "" {
+					return r
+				}
+			}
+		}
+	}
+	return ""
 }
